@@ -95,6 +95,9 @@ VARIANTS = {
     # client victims
     "c_full": dict(role="client", ticket=False),
     "c_offered": dict(role="client", ticket=True),   # ticket offered, adversary may or may not select it
+    # verify_mode=CERT_NONE: the chain is not validated, but CertificateVerify still has to be a signature
+    # by the key of the presented certificate (RFC 8446 4.4.3) - the state machine is the same
+    "c_noverify": dict(role="client", ticket=False, verify_none=True),
     # server victims
     "s_plain": dict(role="server", request_cert=False, psk=False),
     "s_req": dict(role="server", request_cert=True, psk=False),
@@ -311,6 +314,10 @@ class World:
         if self.role == "client":
             ticket, psk = (client_ticket() if cfg["ticket"] else (None, None))
             self.victim = self._make_client(ticket)
+            if cfg.get("verify_none"):
+                import ssl
+
+                self.victim._verify_mode = ssl.CERT_NONE
             self.ref = Ref("client", offered_psk=cfg["ticket"])
             self.kinds = CLIENT_VICTIM_KINDS
             self.adv = R.ServerAdversary(m["chain"], m["leaf"], m["spare"], alpn="h3",
@@ -759,6 +766,10 @@ LEGAL_PREFIXES = {
         "WAIT_CV": ["SH", "EE", "CERT"], "WAIT_FINISHED": ["SH", "EE", "CERT", "CV"],
         "CONNECTED": ["SH", "EE", "CERT", "CV", "FIN"],
     },
+    "c_noverify": {
+        "WAIT_CERT_CR": ["SH", "EE"], "WAIT_CV": ["SH", "EE", "CERT"], "WAIT_FINISHED": ["SH", "EE", "CERT", "CV"],
+        "CONNECTED": ["SH", "EE", "CERT", "CV", "FIN"],
+    },
     "c_full+cr": {
         "WAIT_CV": ["SH", "EE", "CR", "CERT"], "WAIT_FINISHED": ["SH", "EE", "CR", "CERT", "CV"],
         "CONNECTED": ["SH", "EE", "CR", "CERT", "CV", "FIN"],
@@ -1011,6 +1022,8 @@ SEQ_WORLDS = {
     # name -> (variant, hello label, letters, alternatives, literal legal flights)
     "c_full": ("c_full", "SH", ("EE", "CR", "CERT", "CV", "FIN"), {"CV": ("CV", "CV/spare"), "EE": ("EE", "EE/early", "EE/unk"), "CERT": ("CERT", "CERT/empty")},
                {("EE", "CERT", "CV", "FIN"), ("EE", "CR", "CERT", "CV", "FIN")}),
+    "c_noverify": ("c_noverify", "SH", ("EE", "CERT", "CV", "FIN"), {"CV": ("CV", "CV/spare"), "CERT": ("CERT", "CERT/empty")},
+                   {("EE", "CERT", "CV", "FIN")}),
     "c_offered_not_selected": ("c_offered", "SH", ("EE", "CR", "CERT", "CV", "FIN"), {"CV": ("CV", "CV/spare"), "EE": ("EE", "EE/early", "EE/unk"), "CERT": ("CERT", "CERT/empty")},
                                {("EE", "CERT", "CV", "FIN"), ("EE", "CR", "CERT", "CV", "FIN")}),
     "c_psk_selected": ("c_offered", "SH/psk0", ("EE", "CR", "CERT", "CV", "FIN"), {"CV": ("CV", "CV/spare"), "EE": ("EE", "EE/early", "EE/unk"), "CERT": ("CERT", "CERT/empty")},
